@@ -56,12 +56,31 @@ def perms(names):
     return out
 
 
-def oracle(impl, model):
+def detached_views(model, h, first):
+    """views whose chain back to their base was cut by the first epoch's graph clearing: `first` and everything upstream of it had
+    their creators cleared; a view is still a view of its base in the second epoch iff no link of its chain is among those"""
+    parent = {st[1]: st[2] for st in h}
+    D, n = set(), first
+    while n is not None:
+        D.add(n)
+        n = parent.get(n)
+    out = set()
+    for v in model.order:
+        own, n = model.owner(v), v
+        while n is not None and n != own and model.fam.get(n) == model.fam[v]:
+            if n in D:
+                out.add(v)
+                break
+            n = parent.get(n)
+    return out
+
+
+def oracle(impl, model, exempt=()):
     names = model.order
     for n in names:
         own = model.owner(n)
         t = impl.t[n]
-        if own == n:
+        if own == n or n in exempt:
             continue
         b = impl.t[own]
         gv, gb = t.grad, b.grad
@@ -86,7 +105,7 @@ def oracle(impl, model):
     # a write through a view's gradient must be visible in the base's gradient
     for n in names:
         own = model.owner(n)
-        if own == n or own != model.fam[n] or impl.t[n].grad is None or impl.t[n].grad.size == 0:
+        if own == n or n in exempt or own != model.fam[n] or impl.t[n].grad is None or impl.t[n].grad.size == 0:
             continue
         gv, gb = impl.t[n].grad, impl.t[own].grad
         before = np.asarray(gb).reshape(-1).copy()
@@ -99,24 +118,61 @@ def oracle(impl, model):
     return None
 
 
-def run_one(init, h, seed, order):
+SEEDS = ("C", "F", "none", "scalar", "row")
+
+
+def seed_grad(shape, kind):
+    g = weights(shape, 3)
+    return {"C": lambda: np.array(g, order="C"), "F": lambda: np.array(g, order="F"), "none": lambda: None, "scalar": lambda: 1.5,
+            "row": lambda: np.array(g[(0,) * (len(shape) - 1)]) if len(shape) > 1 else 2.5}[kind]()
+
+
+def run_one(init, h, seed, order, first=None, direct=None):
+    """first: name of the tensor from which a first graph epoch is back-propagated (and cleared) before the terminal is built"""
     r = explore.Run(init, h, seed)
     if r.failure is not None:
         f = r.failure
         r.close()
         return f
+    exempt = ()
+    if first is not None:
+        try:
+            L0 = (weights(r.impl.t[first].shape, 7) * r.impl.t[first]).sum()
+            L0.backward()
+            del L0
+        except Exception as e:
+            eb = base.exc_brief(e)
+            del e
+            r.close()
+            return (len(h), ("backward0", first), "exception", "", "%s: %s" % eb)
+        exempt = detached_views(r.model, h, first)
+        f = oracle(r.impl, r.model, exempt)
+        if f is not None:
+            r.close()
+            return (len(h), ("backward0", first)) + f
     try:
-        L = terminal(r.impl, order)
-        L.backward()
+        if direct is not None:
+            # the terminal is one of the tensors itself, with a caller-supplied gradient (C / F ordered, broadcast, default)
+            L = r.impl.t[order[0]]
+            L.backward(seed_grad(L.shape, direct))
+        else:
+            L = terminal(r.impl, order)
+            L.backward()
         del L
     except Exception as e:
         eb = base.exc_brief(e)
         del e
         r.close()
         return (len(h), ("backward",), "exception", "", "%s: %s" % eb)
-    f = oracle(r.impl, r.model)
+    f = oracle(r.impl, r.model, exempt)
     r.close()
     return None if f is None else (len(h), ("backward", tuple(order))) + f
+
+
+def _modes(first):
+    if isinstance(first, str) and first.startswith("direct:"):
+        return dict(first=None, direct=first.split(":")[1])
+    return dict(first=first)
 
 
 def run_task(task):
@@ -140,11 +196,19 @@ def run_task(task):
             for drop in names:
                 rest = [n for n in names if n != drop]
                 orders += perms(rest) if len(rest) <= 3 else [tuple(rest)]
-        for order in orders:
-            f = run_one(init, h, seed, order)
+        jobs = [(order, None) for order in orders]
+        if has_view:
+            for n in names:
+                jobs += [((n,), "direct:" + k) for k in SEEDS]
+        if has_view:
+            # two graph epochs: back-propagate from one tensor first (clearing that graph), then use everything in a second graph
+            for first in names:
+                jobs += [(tuple(names), first), (tuple(reversed(names)), first)]
+        for order, first in jobs:
+            f = run_one(init, h, seed, order, **_modes(first))
             acc.inc("evaluations")
             if f is not None:
-                acc.violation({"case": {"init": init, "history": h, "seed": seed, "order": order, "world": wname}, "failure": f})
+                acc.violation({"case": {"init": init, "history": h, "seed": seed, "order": order, "world": wname, "first": first}, "failure": f})
                 acc.outcome("fail:" + f[2])
                 failed = True
                 break
@@ -184,18 +248,20 @@ def plan(tier, seed):
     )
 
 
-def _fails(init, h, seed, order):
+def _fails(init, h, seed, order, first=None):
     names = [i[0] for i in init] + [s[1] for s in h]
     order = [n for n in order if n in names]
-    if not order:
+    if not order or (first is not None and not first.startswith("direct:") and first not in names):
         return None
-    return run_one(init, h, seed, order)
+    if isinstance(first, str) and first.startswith("direct:"):
+        return run_one(init, h, seed, order, **_modes(first))
+    return run_one(init, h, seed, order, first)
 
 
 def replay(case):
     init = [(i[0], tuple(i[1])) + tuple(i[2:]) for i in case["init"]]
     h = [tuplify(s) for s in case["history"]]
-    f = _fails(init, h, case.get("seed", 0), list(case["order"]))
+    f = _fails(init, h, case.get("seed", 0), list(case["order"]), case.get("first"))
     return [dict(failure=f)] if f is not None else []
 
 
@@ -206,17 +272,22 @@ def finalize(v):
     init = [(i[0], tuple(i[1])) + tuple(i[2:]) for i in case["init"]]
     seed, order = case.get("seed", 0), list(case["order"])
     h = [tuplify(s) for s in case["history"]]
-    f0 = _fails(init, h, seed, order)
+    first = case.get("first")
+    f0 = _fails(init, h, seed, order, first)
     if f0 is None:
         return None
     kind = f0[2]
-    hm = ddmin(h, lambda c: (lambda f: f is not None and f[2] == kind)(_fails(init, c, seed, order)), init)
-    f = _fails(init, hm, seed, order)
+    hm = ddmin(h, lambda c: (lambda f: f is not None and f[2] == kind)(_fails(init, c, seed, order, first)), init)
+    f = _fails(init, hm, seed, order, first)
     names = [i[0] for i in init] + [s[1] for s in hm]
     order = [n for n in order if n in names]
-    tail = "# L = %s; L.backward()\n# %s: %s %s\n" % (" + ".join("(w*%s).sum()" % n for n in order), f[2], f[3], f[4])
+    if isinstance(first, str) and first.startswith("direct:"):
+        tail0 = "# terminal: %s.backward(<%s seed gradient>)\n" % (order[0], first.split(":")[1])
+    else:
+        tail0 = "# first epoch: (w*%s).sum().backward()\n" % first if first is not None else ""
+    tail = tail0 + "# L = %s; L.backward()\n# %s: %s %s\n" % (" + ".join("(w*%s).sum()" % n for n in order), f[2], f[3], f[4])
     return dict(
-        case=dict(init=init, history=hm, seed=seed, order=order, world=case.get("world")),
+        case=dict(init=init, history=hm, seed=seed, order=order, world=case.get("world"), first=first),
         failure=dict(kind=f[2], where=f[3], detail=f[4]),
         script=script(init, hm, seed, tail),
         signature=C04.signature(hm, f),
